@@ -32,6 +32,7 @@ inductive IDiag where
   | varNotFound | fnNotFound | builtinAsValue | unresolvedName | unresolvedCallee
   | tupleIndex | projNonTuple | popBase | outOfFragment
   | typeNotFound | methodArity | methodNotCallable | methodNotFound
+  | ctorNotFound | ctorArity | ctorAmbiguous
   deriving Repr, DecidableEq, Inhabited
 
 def IDiag.name : IDiag → String
@@ -41,6 +42,7 @@ def IDiag.name : IDiag → String
   | .outOfFragment => "out-of-fragment"
   | .typeNotFound => "type-not-found" | .methodArity => "method-arity" | .methodNotCallable => "method-not-callable"
   | .methodNotFound => "method-not-found"
+  | .ctorNotFound => "ctor-not-found" | .ctorArity => "ctor-arity" | .ctorAmbiguous => "ctor-ambiguous"
 
 /-- `hir::NameRef` -/
 inductive NameRes where
@@ -54,6 +56,10 @@ inductive NameRes where
 /-- `hir::Pat` (fragment) -/
 inductive IPat where
   | var (x : Nat) | wild | unit | bool | int | str
+  /-- `PInt8 … PUInt64`: an integer literal pattern with a suffix (`check_pat_typed_int`) -/
+  | tint (lit : Ty)
+  /-- `PConstr`: `info` as for `IExpr.constr` -/
+  | constr (info : Option (Option (Ty × Nat))) (args : List IPat)
   | tuple (ps : List IPat)
   deriving Repr, Inhabited
 
@@ -80,6 +86,9 @@ inductive IExpr where
   | scall (i fi : Nat) (tyName m : String) (args : List IExpr)
   /-- `[e, …]` -/
   | array (i : Nat) (items : List IExpr)
+  /-- `EConstr`: `info` = what `lookup_constructor_with_namespace` and the enum / struct table say about the written
+  path — `some (some (constructor type, declared arity))`, `some none` = not found, `none` = ambiguous (name resolution) -/
+  | constr (i : Nat) (info : Option (Option (Ty × Nat))) (args : List IExpr)
 inductive IArm where
   | mk (p : IPat) (body : IExpr)
 end
@@ -92,10 +101,11 @@ inductive TPat where
   | wild (ty : Ty)
   | lit (k : Ty) (ty : Ty)
   | tuple (ps : List TPat) (ty : Ty)
+  | constr (ps : List TPat) (ty : Ty)
   deriving Inhabited
 
 def TPat.ty : TPat → Ty
-  | .var _ t => t | .wild t => t | .lit _ t => t | .tuple _ t => t
+  | .var _ t => t | .wild t => t | .lit _ t => t | .tuple _ t => t | .constr _ t => t
 
 mutual
 /-- `tast::Expr` as `check.rs` returns it (types before substitution).  `letE` also keeps the type the
@@ -108,6 +118,8 @@ inductive TExpr where
   | mvar (recv : Ty) (name : String) (ty : Ty)
   | prim (ty : Ty)
   | array (items : List TExpr) (ty : Ty)
+  /-- `EConstr { constructor, args, ty }`; `cty` = the instantiated constructor type -/
+  | constr (cty : Ty) (args : List TExpr) (ty : Ty)
   | tuple (items : List TExpr) (ty : Ty)
   | closure (params : List (Nat × Ty)) (body : TExpr) (ty : Ty)
   | letE (p : TPat) (vty : Ty) (v : TExpr)
@@ -128,7 +140,7 @@ instance : Inhabited TExpr := ⟨.prim .unit⟩
 
 /-- `tast::Expr::get_ty` -/
 def TExpr.ty : TExpr → Ty
-  | .lvar _ t => t | .gvar _ t => t | .err t => t | .mvar _ _ t => t | .prim t => t | .array _ t => t
+  | .lvar _ t => t | .gvar _ t => t | .err t => t | .mvar _ _ t => t | .prim t => t | .array _ t => t | .constr _ _ t => t
   | .tuple _ t => t | .closure _ _ t => t
   | .letE _ _ _ => .unit | .block _ t => t | .ite _ _ _ t => t | .while _ _ => .unit | .call _ _ t => t
   | .un _ _ t => t | .bin _ _ _ t => t | .proj _ _ t => t | .field _ _ t => t | .matchE _ _ t => t
@@ -227,6 +239,16 @@ def isLogic : BinOp → Bool
 
 /-! ### patterns — `check_pat` -/
 
+/-- the parameter types / the result type of an instantiated constructor type (a unit variant has its enum type) -/
+def ctorParams : Ty → List Ty
+  | .func ps _ => ps
+  | _ => []
+def ctorRet : Ty → Ty
+  | .func _ r => r
+  | t => t
+
+
+
 def freshN : Nat → St → List Ty × St
   | 0, s => ([], s)
   | n + 1, s =>
@@ -250,9 +272,26 @@ def checkPat : IPat → Ty → Scopes → St → TPat × Scopes × St
     let target := if isIntegerTy ty then ty else .int 32 true
     (.lit target ty, Γ, s.push (.eq target ty))
   | .str, ty, Γ, s => (.lit .string .string, Γ, s.push (.eq .string ty))
+  | .tint k, ty, Γ, s => (.lit k k, Γ, s.push (.eq k ty))
   | .wild, ty, Γ, s =>
     let v := s.fresh
     (.wild v.1, Γ, v.2.push (.eq v.1 ty))
+  | .constr info args, ty, Γ, s =>
+    -- `check_pat_constructor`: a failed lookup / a wrong arity falls back to `check_pat_wild`
+    match (match info with
+           | some (some (cty, arity)) => if arity = args.length then some cty else none
+           | _ => none) with
+    | none =>
+      let d := match info with
+        | none => IDiag.ctorAmbiguous
+        | some none => IDiag.ctorNotFound
+        | some (some _) => IDiag.ctorArity
+      let v := (s.mark.diag d).fresh
+      (.wild v.1, Γ, v.2.push (.eq v.1 ty))
+    | some cty =>
+      let it := s.mark.inst cty
+      let r := checkPatZip args (ctorParams it.1) Γ it.2
+      (.constr r.1 (ctorRet it.1), r.2.1, r.2.2.push (.eq (ctorRet it.1) ty))
   | .tuple ps, ty, Γ, s =>
     let el := tupleElemTys ps.length ty s
     let r := checkPatZip ps el.1 Γ el.2
@@ -629,6 +668,22 @@ def go : IExpr → Option Ty → GEnv → Scopes → St → Res
         match goArms arms tsc.ty none v.1 G Γ1 v.2 with
         | none => none
         | some (tas, Γ2, s2) => finish i exp true (.matchE tsc tas v.1) Γ2 s2
+  | .constr i info args, exp, G, Γ, s =>
+    -- `infer_constructor_expr`
+    match info with
+    | none => let e := errExpr (s.mark.diag .ctorAmbiguous); finish i exp true e.1 Γ e.2
+    | some none => let e := errExpr (s.mark.diag .ctorNotFound); finish i exp true e.1 Γ e.2
+    | some (some (cty, arity)) =>
+      if arity ≠ args.length then let e := errExpr (s.mark.diag .ctorArity); finish i exp true e.1 Γ e.2
+      else
+        let it := s.mark.inst cty
+        let ps := ctorParams it.1
+        let ret := ctorRet it.1
+        match (if ps.isEmpty then goL args G Γ it.2 else goZip args ps G Γ it.2) with
+        | none => none
+        | some (ts, Γ1, s1) =>
+          let c := if ts.isEmpty then Constraint.eq it.1 ret else Constraint.eq it.1 (.func (tysOf ts) ret)
+          finish i exp true (.constr it.1 ts ret) Γ1 (s1.push c)
   | .array i items, exp, G, Γ, s =>
     -- `infer_array_expr`: the element variable first, every item inferred and equated with it
     let v := s.mark.fresh
